@@ -173,249 +173,203 @@ Covered(st, arms) ==
      \E i \in 1..Len(arms) : arms[i].k = "other" \/ (arms[i].k = "ty" /\ Matches(m, Unwire(arms[i].ty)))
 
 (***************************************************************************)
-(* The judgement                                                            *)
+(* The judgement.  Shape: the sub-expressions of a node are typed first,    *)
+(* each in its own context (Kids: binding constructs extend the environment *)
+(* of the sub-expression they scope over, loops set the loop flag); a       *)
+(* statement list that the node owns (block, module, imported file, function *)
+(* body) is typed by TypeStmts; the first rejection wins; then the node's    *)
+(* own rule (Rule: one arm per node kind, not recursive) checks the operand  *)
+(* types and gives the node's type.                                         *)
 (***************************************************************************)
-RECURSIVE TypeOf(_, _), TypeStmts(_, _), TypeList(_, _), TypeOpt(_, _), FnCheck(_, _, _, _), TypeArms(_, _, _)
+Kid(e, cx) == [e |-> e, cx |-> cx]
+KidsIn(es, cx) == [i \in 1..Len(es) |-> Kid(es[i], cx)]
+WithName(cx, n, t) == [cx EXCEPT !.env = BindT(@, n, t)]
+InLoop(cx) == [cx EXCEPT !.loop = TRUE]
+Present(x) == IF x = NoneV THEN <<>> ELSE <<x>>
+
+\* match: the scrutinee, then per arm its values (value arms) and its body
+ArmKids(a, cx) ==
+  CASE a.k = "val" -> KidsIn(a.vs, cx) \o <<Kid(a.b, cx)>>
+    [] a.k = "ty"  -> <<Kid(a.b, WithName(cx, a.n, Unwire(a.ty)))>>
+    [] OTHER       -> <<Kid(a.b, cx)>>
+RECURSIVE ArmsKids(_, _, _)
+ArmsKids(arms, cx, i) == IF i > Len(arms) THEN <<>> ELSE ArmKids(arms[i], cx) \o ArmsKids(arms, cx, i + 1)
+\* position (among the kids of a match) of the body of arm i
+RECURSIVE ArmBodyAt(_, _)
+ArmBodyAt(arms, i) == IF i = 0 THEN 1 ELSE ArmBodyAt(arms, i - 1) + Len(ArmKids(arms[i], Cx(<<>>, NoneV, FALSE)))
+
+Kids(e, cx) ==
+  CASE e.k \in {"tup", "arr"} -> KidsIn(e.es, cx)
+    [] e.k = "rep"    -> KidsIn(<<e.v, e.len>>, cx)
+    [] e.k = "struct" -> KidsIn([i \in 1..Len(e.fs) |-> e.fs[i][2]], cx)
+    [] e.k \in {"field", "tupat", "neg", "not", "deref", "mut", "iter", "hide", "tick"} -> <<Kid(e.e, cx)>>
+    [] e.k = "at"     -> KidsIn(<<e.e, e.i>>, cx)
+    [] e.k = "slice"  -> KidsIn(<<e.e>> \o Present(e.a) \o Present(e.b) \o Present(e.c), cx)
+    [] e.k \in {"bin", "and", "or", "asg"} -> KidsIn(<<e.l, e.r>>, cx)
+    [] e.k = "if"     -> KidsIn(<<e.c, e.t>> \o Present(e.f), cx)
+    [] e.k = "ifset"  -> <<Kid(e.e, cx), Kid(e.t, WithName(cx, e.n, Unwire(e.ty)))>> \o KidsIn(Present(e.f), cx)
+    [] e.k = "match"  -> <<Kid(e.e, cx)>> \o ArmsKids(e.arms, cx, 1)
+    [] e.k = "loop"   -> <<Kid(e.b, InLoop(cx))>>
+    [] e.k = "while"  -> <<Kid(e.c, cx), Kid(e.b, InLoop(cx))>>
+    \* D7: the tested expression is checked with the loop flag already set
+    [] e.k = "whileset" -> <<Kid(e.e, InLoop(cx)), Kid(e.b, InLoop(WithName(cx, e.n, Unwire(e.ty))))>>
+    [] e.k = "for"    -> <<Kid(e.e, cx)>>         \* the body depends on the iterator's type: Kids2
+    [] e.k = "ret"    -> KidsIn(Present(e.e), cx)
+    [] e.k = "call"   -> KidsIn(<<e.f>> \o e.args, cx)
+    [] e.k \in {"map", "filter", "part"} -> KidsIn(<<e.it, e.f>>, cx)
+    [] e.k \in {"tfilter", "collect", "red"} -> <<Kid(e.it, cx)>>
+    [] e.k = "reduce" -> KidsIn(<<e.it, e.init, e.f>>, cx)
+    [] OTHER -> <<>>       \* lit var break continue mark; block mod import fn own a statement list instead
+
+\* `for n in e body': the body sees n with the element type of e
+Kids2(e, cx, ts) ==
+  IF e.k = "for" /\ ~IsRej(ts[1]) /\ ~IsNone(QIterElement(ts[1]))
+  THEN <<Kid(e.b, InLoop(WithName(cx, e.n, QIterElement(ts[1]))))>>
+  ELSE <<>>
+
+\* the statement list a node owns, and the context it is typed in: a function body sees the parameters,
+\* is checked against the declared result type and is outside any loop of its creator
+OwnsBody(e) == e.k \in {"block", "mod", "import", "fn"}
+BodyCx(e, cx) == IF e.k = "fn" THEN Cx(BindParams(cx.env, e.ps, 1), Unwire(e.r), FALSE) ELSE cx
+
+FirstRej(ts) == LET bad == {i \in 1..Len(ts) : IsRej(ts[i])} IN IF bad = {} THEN NoneV ELSE ts[Min(bad)]
 
 OkS(t, env, nev) == [k |-> "ok", t |-> t, env |-> env, nev |-> nev]
+NoBody == OkS(TVoid, <<>>, FALSE)
 
-\* types of a list of expressions in one environment; the first rejection wins
-TypeList(es, cx) ==
-  LET ts == [i \in 1..Len(es) |-> TypeOf(es[i], cx)]
-      bad == {i \in 1..Len(es) : IsRej(ts[i])}
-  IN IF bad = {} THEN [k |-> "ok", ts |-> ts] ELSE ts[Min(bad)]
-
-\* an optional operand (slice bounds): absent is fine
-TypeOpt(e, cx) == IF e = NoneV THEN NoneV ELSE TypeOf(e, cx)
-
-\* body of a function literal / declaration checked against the declared result type; `env' already holds
-\* the function's own name (declarations); a function that may fall off the end must admit ()
-FnCheck(ps, r, body, env) ==
-  LET rt == Unwire(r)
-      b == TypeStmts(body, Cx(BindParams(env, ps, 1), rt, FALSE))
-  IN IF IsRej(b) THEN b
-     ELSE IF ~Matches(TVoid, rt) /\ ~b.nev THEN Rej("MissingReturn")
-     ELSE Fn(ParamTs(ps), rt)
-
-\* arm bodies, in order; result [k |-> "ok", ts |-> <<types>>] or the first rejection
-TypeArms(arms, cx, i) ==
-  IF i > Len(arms) THEN [k |-> "ok", ts |-> <<>>]
-  ELSE
-    LET a == arms[i]
-        vs == IF a.k = "val" THEN TypeList(a.vs, cx) ELSE [k |-> "ok", ts |-> <<>>]
-        bt == IF a.k = "ty" THEN TypeOf(a.b, [cx EXCEPT !.env = BindT(@, a.n, Unwire(a.ty))])
-              ELSE TypeOf(a.b, cx)
-    IN IF a.k \notin {"val", "ty", "other"} THEN Rej("unknown-arm")
-       ELSE IF IsRej(vs) THEN vs
-       ELSE IF IsRej(bt) THEN bt
-       ELSE LET rest == TypeArms(arms, cx, i + 1) IN
-            IF IsRej(rest) THEN rest ELSE [k |-> "ok", ts |-> <<bt>> \o rest.ts]
-
-TypeStmts(ss, cx) ==
-  IF ss = <<>> THEN OkS(TVoid, cx.env, FALSE)
-  ELSE
-    LET s == Head(ss)
-        h == CASE s.k = "set" ->
-                    LET t == TypeOf(s.e, cx) IN
-                    IF IsRej(t) THEN t ELSE OkS(t, BindT(cx.env, s.n, t), FALSE)
-               [] s.k = "destruct" ->
-                    LET t == TypeOf(s.e, cx) IN
-                    IF IsRej(t) THEN t
-                    ELSE IF ~QIsTuple(t) THEN Rej("NotATuple")
-                    ELSE IF QTupleLen(t) = -1 THEN Rej("CannotDetermineLength")
-                    ELSE IF QTupleLen(t) # Len(s.ns) THEN Rej("WrongLength")
-                    ELSE OkS(t, BindNames(cx.env, s.ns, QFlattenTuple(t).es, 1), FALSE)
-               [] s.k = "fndecl" ->
-                    LET sig == Fn(ParamTs(s.ps), Unwire(s.r))
-                        env1 == BindT(cx.env, s.n, sig)
-                        f == FnCheck(s.ps, s.r, s.body, env1)
-                    IN IF IsRej(f) THEN f ELSE OkS(sig, env1, FALSE)
-               [] OTHER ->
-                    LET t == TypeOf(s, cx) IN IF IsRej(t) THEN t ELSE OkS(t, cx.env, FALSE)
-    IN IF IsRej(h) THEN h
-       ELSE IF Len(ss) = 1 THEN OkS(h.t, h.env, IsNever(h.t))
-       ELSE LET r == TypeStmts(Tail(ss), [cx EXCEPT !.env = h.env]) IN
-            IF IsRej(r) THEN r ELSE OkS(r.t, r.env, r.nev \/ IsNever(h.t))
-
-TypeOf(e, cx) ==
+(* The node's own rule.  ts: the types of Kids \o Kids2 (none rejected); bs: the result of the owned statement
+   list (not rejected).  Transcribes create_instruction / return_type of each instruction kind. *)
+Rule(e, cx, ts, bs) ==
   CASE e.k = "lit" -> LitType(e.v)
     [] e.k = "var" ->
          LET t == LookupT(cx.env, e.n) IN IF t = NoneV THEN Rej("VariableDoesntExist") ELSE t
-    [] e.k = "block" ->
-         LET r == TypeStmts(e.body, cx) IN IF IsRej(r) THEN r ELSE r.t
+    [] e.k = "block" -> bs.t
     [] e.k \in {"mod", "import"} ->      \* a struct of the names the module's own layer declares
-         LET r == TypeStmts(e.body, cx) IN
-         IF IsRej(r) THEN r
-         ELSE LET own == SubSeq(r.env, Len(cx.env) + 1, Len(r.env))
-                  names == {own[i].n : i \in 1..Len(own)} IN
-              Struct([n \in names |-> LookupT(own, n)])
-    [] e.k = "tup" ->
-         LET r == TypeList(e.es, cx) IN IF IsRej(r) THEN r ELSE Tup(r.ts)
-    [] e.k = "arr" ->
-         LET r == TypeList(e.es, cx) IN IF IsRej(r) THEN r ELSE Arr(JoinSeq(r.ts))
-    [] e.k = "rep" ->
-         LET r == TypeList(<<e.v, e.len>>, cx) IN
-         IF IsRej(r) THEN r
-         ELSE IF ~Matches(r.ts[2], TInt) THEN Rej("WrongLengthType")
-         ELSE Arr(r.ts[1])
+         LET own == SubSeq(bs.env, Len(cx.env) + 1, Len(bs.env))
+             names == {own[i].n : i \in 1..Len(own)} IN
+         Struct([n \in names |-> LookupT(own, n)])
+    [] e.k = "fn" ->       \* a function that may fall off the end must admit ()
+         IF ~Matches(TVoid, Unwire(e.r)) /\ ~bs.nev THEN Rej("MissingReturn")
+         ELSE Fn(ParamTs(e.ps), Unwire(e.r))
+    [] e.k = "tup" -> Tup(ts)
+    [] e.k = "arr" -> Arr(JoinSeq(ts))
+    [] e.k = "rep" -> IF ~Matches(ts[2], TInt) THEN Rej("WrongLengthType") ELSE Arr(ts[1])
     [] e.k = "struct" ->
-         LET r == TypeList([i \in 1..Len(e.fs) |-> e.fs[i][2]], cx) IN
-         IF IsRej(r) THEN r
-         ELSE LET names == {e.fs[i][1] : i \in 1..Len(e.fs)} IN
-              Struct([n \in names |-> r.ts[Max({i \in 1..Len(e.fs) : e.fs[i][1] = n})]])
+         LET names == {e.fs[i][1] : i \in 1..Len(e.fs)} IN
+         Struct([n \in names |-> ts[Max({i \in 1..Len(e.fs) : e.fs[i][1] = n})]])
     [] e.k = "field" ->
-         LET t == TypeOf(e.e, cx) IN
-         IF IsRej(t) THEN t
-         ELSE IF ~QIsStruct(t) THEN Rej("CannotFieldAccess")
-         ELSE IF ~QHasField(t, e.n) THEN Rej("NoField")
-         ELSE QFieldType(t, e.n)
+         IF ~QIsStruct(ts[1]) THEN Rej("CannotFieldAccess")
+         ELSE IF ~QHasField(ts[1], e.n) THEN Rej("NoField")
+         ELSE QFieldType(ts[1], e.n)
     [] e.k = "tupat" ->
-         LET t == TypeOf(e.e, cx) IN
-         IF IsRej(t) THEN t
-         ELSE IF ~QIsTuple(t) THEN Rej("CannotTupleAccess")
-         ELSE IF e.i >= QMinTupleLen(t) THEN Rej("TupleIndexTooBig")
-         ELSE QTupleAt(t, e.i + 1)
+         IF ~QIsTuple(ts[1]) THEN Rej("CannotTupleAccess")
+         ELSE IF e.i >= QMinTupleLen(ts[1]) THEN Rej("TupleIndexTooBig")
+         ELSE QTupleAt(ts[1], e.i + 1)
     [] e.k = "at" ->
-         LET r == TypeList(<<e.e, e.i>>, cx) IN
-         IF IsRej(r) THEN r
-         ELSE IF r.ts[2] # TInt THEN Rej("CannotIndexWith")
-         ELSE IF ~QCanBeIndexed(r.ts[1]) THEN Rej("CannotIndexInto")
-         ELSE LET x == QIndexResult(r.ts[1]) IN IF IsNone(x) THEN TNever ELSE x
-    [] e.k = "slice" ->
-         LET t == TypeOf(e.e, cx)
-             a == TypeOpt(e.a, cx)  b == TypeOpt(e.b, cx)  c == TypeOpt(e.c, cx) IN
-         IF IsRej(t) THEN t
-         ELSE IF ~QCanBeIndexed(t) THEN Rej("CannotSlice")
-         ELSE IF IsRej(a) THEN a ELSE IF IsRej(b) THEN b ELSE IF IsRej(c) THEN c
-         ELSE IF \E x \in {a, b, c} : x # NoneV /\ x # TInt THEN Rej("CannotIndexWith")
-         ELSE t
-    [] e.k = "neg" ->
-         LET t == TypeOf(e.e, cx) IN
-         IF IsRej(t) THEN t
-         ELSE IF Matches(t, Multi({TInt, TFloat})) THEN t ELSE Rej("IncorectUnaryOperatorOperand")
-    [] e.k = "not" ->
-         LET t == TypeOf(e.e, cx) IN
-         IF IsRej(t) THEN t
-         ELSE IF Matches(t, Multi({TInt, TBool})) THEN t ELSE Rej("IncorectUnaryOperatorOperand")
-    [] e.k = "deref" ->
-         LET t == TypeOf(e.e, cx) IN
-         IF IsRej(t) THEN t
-         ELSE IF ~QIsMut(t) THEN Rej("IncorectUnaryOperatorOperand")
-         ELSE QMutElementType(t)
-    [] e.k = "bin" ->
-         LET r == TypeList(<<e.l, e.r>>, cx) IN
-         IF IsRej(r) THEN r
-         ELSE IF BinOk(e.op, r.ts[1], r.ts[2]) THEN BinType(e.op, r.ts[1], r.ts[2]) ELSE Rej("CannotDo2")
-    [] e.k \in {"and", "or"} ->
-         LET r == TypeList(<<e.l, e.r>>, cx) IN
-         IF IsRej(r) THEN r
-         ELSE IF r.ts[1] = TBool /\ r.ts[2] = TBool THEN TBool ELSE Rej("CannotDo2")
-    [] e.k = "mut" ->
-         LET t == TypeOf(e.e, cx) IN
-         IF IsRej(t) THEN t
-         ELSE IF "u" \in DOMAIN e THEN MutT(t)
-         ELSE IF Matches(t, Unwire(e.ty)) THEN MutT(Unwire(e.ty)) ELSE Rej("WrongInitialization")
-    [] e.k = "asg" ->
-         LET r == TypeList(<<e.l, e.r>>, cx) IN
-         IF IsRej(r) THEN r ELSE AsgType(e.op, r.ts[1], r.ts[2])
-    [] e.k = "if" ->
-         LET c == TypeOf(e.c, cx) IN
-         IF IsRej(c) THEN c
-         ELSE IF c # TBool THEN Rej("WrongCondition")
-         ELSE LET t == TypeOf(e.t, cx)
-                  f == IF e.f = NoneV THEN TVoid ELSE TypeOf(e.f, cx) IN
-              IF IsRej(t) THEN t ELSE IF IsRej(f) THEN f ELSE Join(t, f)
-    [] e.k = "ifset" ->
-         LET x == TypeOf(e.e, cx) IN
-         IF IsRej(x) THEN x
-         ELSE LET t == TypeOf(e.t, [cx EXCEPT !.env = BindT(@, e.n, Unwire(e.ty))])
-                  f == IF e.f = NoneV THEN TVoid ELSE TypeOf(e.f, cx) IN
-              IF IsRej(t) THEN t ELSE IF IsRej(f) THEN f ELSE Join(t, f)
+         IF ts[2] # TInt THEN Rej("CannotIndexWith")
+         ELSE IF ~QCanBeIndexed(ts[1]) THEN Rej("CannotIndexInto")
+         ELSE LET x == QIndexResult(ts[1]) IN IF IsNone(x) THEN TNever ELSE x
+    [] e.k = "slice" ->       \* `s[:]' is s itself; otherwise every bound that is present is an int
+         IF ~QCanBeIndexed(ts[1]) THEN Rej("CannotSlice")
+         ELSE IF \E i \in 2..Len(ts) : ts[i] # TInt THEN Rej("CannotIndexWith")
+         ELSE ts[1]
+    [] e.k = "neg" -> IF Matches(ts[1], Multi({TInt, TFloat})) THEN ts[1] ELSE Rej("IncorectUnaryOperatorOperand")
+    [] e.k = "not" -> IF Matches(ts[1], Multi({TInt, TBool})) THEN ts[1] ELSE Rej("IncorectUnaryOperatorOperand")
+    [] e.k = "deref" -> IF ~QIsMut(ts[1]) THEN Rej("IncorectUnaryOperatorOperand") ELSE QMutElementType(ts[1])
+    [] e.k = "bin" -> IF BinOk(e.op, ts[1], ts[2]) THEN BinType(e.op, ts[1], ts[2]) ELSE Rej("CannotDo2")
+    [] e.k \in {"and", "or"} -> IF ts[1] = TBool /\ ts[2] = TBool THEN TBool ELSE Rej("CannotDo2")
+    [] e.k = "mut" ->         \* D6: the untyped form takes the static type of its initial value
+         IF "u" \in DOMAIN e THEN MutT(ts[1])
+         ELSE IF Matches(ts[1], Unwire(e.ty)) THEN MutT(Unwire(e.ty)) ELSE Rej("WrongInitialization")
+    [] e.k = "asg" -> AsgType(e.op, ts[1], ts[2])
+    [] e.k = "if" ->          \* D1: both branches, also under a constant condition
+         IF ts[1] # TBool THEN Rej("WrongCondition")
+         ELSE Join(ts[2], IF e.f = NoneV THEN TVoid ELSE ts[3])
+    [] e.k = "ifset" -> Join(ts[2], IF e.f = NoneV THEN TVoid ELSE ts[3])
     [] e.k = "match" ->
-         LET x == TypeOf(e.e, cx) IN
-         IF IsRej(x) THEN x
-         ELSE IF Len(e.arms) = 0 THEN Rej("match-without-arms")
-         ELSE LET as == TypeArms(e.arms, cx, 1) IN
-              IF IsRej(as) THEN as
-              ELSE IF ~Covered(x, e.arms) THEN Rej("MatchNotCovered")
-              ELSE JoinSeq(as.ts)
-    [] e.k = "loop" ->
-         LET b == TypeOf(e.b, [cx EXCEPT !.loop = TRUE]) IN IF IsRej(b) THEN b ELSE TVoid
-    [] e.k = "while" ->
-         LET c == TypeOf(e.c, cx) IN
-         IF IsRej(c) THEN c
-         ELSE IF c # TBool THEN Rej("WrongCondition")
-         ELSE LET b == TypeOf(e.b, [cx EXCEPT !.loop = TRUE]) IN IF IsRej(b) THEN b ELSE TVoid
-    [] e.k = "whileset" ->       \* D7: the tested expression is checked with the loop flag set
-         LET x == TypeOf(e.e, [cx EXCEPT !.loop = TRUE]) IN
-         IF IsRej(x) THEN x
-         ELSE LET b == TypeOf(e.b, [cx EXCEPT !.env = BindT(@, e.n, Unwire(e.ty)), !.loop = TRUE]) IN
-              IF IsRej(b) THEN b ELSE TVoid
-    [] e.k = "for" ->
-         LET it == TypeOf(e.e, cx) IN
-         IF IsRej(it) THEN it
-         ELSE LET el == QIterElement(it) IN
-              IF IsNone(el) THEN Rej("WrongType")
-              ELSE LET b == TypeOf(e.b, [cx EXCEPT !.env = BindT(@, e.n, el), !.loop = TRUE]) IN
-                   IF IsRej(b) THEN b ELSE TVoid
+         IF Len(e.arms) = 0 THEN Rej("match-without-arms")
+         ELSE IF \E i \in 1..Len(e.arms) : e.arms[i].k \notin {"val", "ty", "other"} THEN Rej("unknown-arm")
+         ELSE IF ~Covered(ts[1], e.arms) THEN Rej("MatchNotCovered")
+         ELSE JoinSeq([i \in 1..Len(e.arms) |-> ts[ArmBodyAt(e.arms, i)]])
+    [] e.k = "loop" -> TVoid
+    [] e.k = "while" -> IF ts[1] # TBool THEN Rej("WrongCondition") ELSE TVoid
+    [] e.k = "whileset" -> TVoid
+    [] e.k = "for" -> IF IsNone(QIterElement(ts[1])) THEN Rej("WrongType") ELSE TVoid
     [] e.k = "break" -> IF cx.loop THEN TNever ELSE Rej("BreakOutsideLoop")
     [] e.k = "continue" -> IF cx.loop THEN TNever ELSE Rej("ContinueOutsideLoop")
     [] e.k = "ret" ->
          IF cx.ret = NoneV THEN Rej("ReturnOutsideFunction")
-         ELSE LET t == IF e.e = NoneV THEN TVoid ELSE TypeOf(e.e, cx) IN
-              IF IsRej(t) THEN t
-              ELSE IF Matches(t, cx.ret) THEN TNever ELSE Rej("WrongReturn")
-    [] e.k = "fn" -> FnCheck(e.ps, e.r, e.body, cx.env)
-    [] e.k = "call" ->
-         LET f == TypeOf(e.f, cx) IN
-         IF IsRej(f) THEN f
-         ELSE LET a == TypeList(e.args, cx) IN
-              IF IsRej(a) THEN a ELSE CallType(f, a.ts)
+         ELSE IF Matches(IF e.e = NoneV THEN TVoid ELSE ts[1], cx.ret) THEN TNever ELSE Rej("WrongReturn")
+    [] e.k = "call" -> CallType(ts[1], Tail(ts))
     [] e.k = "iter" ->
-         LET t == TypeOf(e.e, cx) IN
-         IF IsRej(t) THEN t
-         ELSE IF ~Matches(t, Arr(TAny)) THEN Rej("IncorectUnaryOperatorOperand")
-         ELSE LET el == QElementType(t) IN IterSig(IF IsNone(el) THEN TNever ELSE el)
-    [] e.k \in {"map", "filter", "part"} ->
-         LET r == TypeList(<<e.it, e.f>>, cx) IN
-         IF IsRej(r) THEN r
-         ELSE LET el == QIterElement(r.ts[1]) IN
-              IF IsNone(el) THEN Rej("CannotDo2")
-              ELSE IF e.k = "map" THEN
-                     IF ~Matches(r.ts[2], Fn(<<el>>, TAny)) THEN Rej("CannotDo2")
-                     ELSE LET rr == QReturnType(r.ts[2]) IN IterSig(IF IsNone(rr) THEN TNever ELSE rr)
-              ELSE IF ~Matches(r.ts[2], Fn(<<el>>, TBool)) THEN Rej("CannotDo2")
-              ELSE IF e.k = "filter" THEN r.ts[1]
-              ELSE Tup(<<Arr(el), Arr(el)>>)
-    [] e.k = "tfilter" ->
-         LET t == TypeOf(e.it, cx) IN
-         IF IsRej(t) THEN t
-         ELSE IF ~QIsIterator(t) THEN Rej("CannotDo2") ELSE IterSig(Unwire(e.ty))
-    [] e.k = "collect" ->
-         LET t == TypeOf(e.it, cx) IN
-         IF IsRej(t) THEN t
-         ELSE IF ~QIsIterator(t) THEN Rej("IncorectUnaryOperatorOperand") ELSE Arr(ElemOrNever(t))
+         IF ~Matches(ts[1], Arr(TAny)) THEN Rej("IncorectUnaryOperatorOperand")
+         ELSE LET el == QElementType(ts[1]) IN IterSig(IF IsNone(el) THEN TNever ELSE el)
+    [] e.k = "map" ->
+         LET el == QIterElement(ts[1]) IN
+         IF IsNone(el) THEN Rej("CannotDo2")
+         ELSE IF ~Matches(ts[2], Fn(<<el>>, TAny)) THEN Rej("CannotDo2")
+         ELSE LET rr == QReturnType(ts[2]) IN IterSig(IF IsNone(rr) THEN TNever ELSE rr)
+    [] e.k \in {"filter", "part"} ->
+         LET el == QIterElement(ts[1]) IN
+         IF IsNone(el) THEN Rej("CannotDo2")
+         ELSE IF ~Matches(ts[2], Fn(<<el>>, TBool)) THEN Rej("CannotDo2")
+         ELSE IF e.k = "filter" THEN ts[1] ELSE Tup(<<Arr(el), Arr(el)>>)
+    [] e.k = "tfilter" -> IF ~QIsIterator(ts[1]) THEN Rej("CannotDo2") ELSE IterSig(Unwire(e.ty))
+    [] e.k = "collect" -> IF ~QIsIterator(ts[1]) THEN Rej("IncorectUnaryOperatorOperand") ELSE Arr(ElemOrNever(ts[1]))
     [] e.k = "reduce" ->
-         LET r == TypeList(<<e.it, e.init, e.f>>, cx) IN
-         IF IsRej(r) THEN r
-         ELSE LET el == QIterElement(r.ts[1])
-                  rr == QReturnType(r.ts[3]) IN
-              IF IsNone(el) THEN Rej("CannotReduce")
-              ELSE IF IsNone(rr) THEN Rej("WrongType")
-              ELSE LET acc == Join(Join(r.ts[2], el), rr) IN
-                   IF ~Matches(r.ts[3], Fn(<<acc, el>>, rr)) THEN Rej("WrongType")
-                   ELSE Join(rr, r.ts[2])
-    [] e.k = "red" ->
-         LET t == TypeOf(e.it, cx) IN IF IsRej(t) THEN t ELSE RedType(e.op, t)
+         LET el == QIterElement(ts[1])
+             rr == QReturnType(ts[3]) IN
+         IF IsNone(el) THEN Rej("CannotReduce")
+         ELSE IF IsNone(rr) THEN Rej("WrongType")
+         ELSE IF ~Matches(ts[3], Fn(<<Join(Join(ts[2], el), rr), el>>, rr)) THEN Rej("WrongType")
+         ELSE Join(rr, ts[2])
+    [] e.k = "red" -> RedType(e.op, ts[1])
     [] e.k \in {"hide", "tick"} ->       \* call of a helper (v: ty) -> ty  /  (i: int, v: ty) -> ty
-         LET t == TypeOf(e.e, cx) IN
-         IF IsRej(t) THEN t
-         ELSE IF e.k = "tick" /\ LookupT(cx.env, "log") # LogType THEN Rej("log-shadowed")
-         ELSE IF Matches(t, Unwire(e.ty)) THEN Unwire(e.ty) ELSE Rej("WrongArgument")
+         IF e.k = "tick" /\ LookupT(cx.env, "log") # LogType THEN Rej("log-shadowed")
+         ELSE IF Matches(ts[1], Unwire(e.ty)) THEN Unwire(e.ty) ELSE Rej("WrongArgument")
     [] e.k = "mark" ->                   \* log += [i]
          LET lt == LookupT(cx.env, "log") IN
          IF lt = NoneV THEN Rej("VariableDoesntExist") ELSE AsgType("+=", lt, Arr(TInt))
     [] OTHER -> Rej("unknown-node")
+
+RECURSIVE TypeOf(_, _), TypeStmts(_, _)
+
+TypeOf(e, cx) ==
+  LET k1 == Kids(e, cx)
+      t1 == [i \in 1..Len(k1) |-> TypeOf(k1[i].e, k1[i].cx)]
+      k2 == Kids2(e, cx, t1)
+      ts == t1 \o [i \in 1..Len(k2) |-> TypeOf(k2[i].e, k2[i].cx)]
+      bs == IF OwnsBody(e) THEN TypeStmts(e.body, BodyCx(e, cx)) ELSE NoBody
+      rj == FirstRej(ts)
+  IN IF rj # NoneV THEN rj
+     ELSE IF IsRej(bs) THEN bs
+     ELSE Rule(e, cx, ts, bs)
+
+(* Statement lists: `x := e', `(a, b) := e' and `f := (..) -> r {..}' extend the environment of the statements
+   that follow; a declared function sees its own name (its parameters shadow it).  Result: the type of the last
+   statement (() for an empty list), the environment at the end, and whether some statement has type ! (which is
+   what "cannot fall off the end" means to the checker). *)
+FnNode(s) == [k |-> "fn", ps |-> s.ps, r |-> s.r, body |-> s.body]
+TypeStmts(ss, cx) ==
+  IF ss = <<>> THEN OkS(TVoid, cx.env, FALSE)
+  ELSE
+    LET s == Head(ss)
+        sig == Fn(ParamTs(s.ps), Unwire(s.r))                  \* fndecl only
+        cx1 == IF s.k = "fndecl" THEN WithName(cx, s.n, sig) ELSE cx
+        t == TypeOf(CASE s.k \in {"set", "destruct"} -> s.e [] s.k = "fndecl" -> FnNode(s) [] OTHER -> s, cx1)
+        env2 == CASE s.k = "set" -> BindT(cx.env, s.n, t)
+                  [] s.k = "destruct" -> BindNames(cx.env, s.ns, QFlattenTuple(t).es, 1)
+                  [] OTHER -> cx1.env
+        bad == IF s.k # "destruct" THEN NoneV
+               ELSE IF ~QIsTuple(t) THEN Rej("NotATuple")
+               ELSE IF QTupleLen(t) = -1 THEN Rej("CannotDetermineLength")
+               ELSE IF QTupleLen(t) # Len(s.ns) THEN Rej("WrongLength")
+               ELSE NoneV
+    IN IF IsRej(t) THEN t
+       ELSE IF bad # NoneV THEN bad
+       ELSE IF Len(ss) = 1 THEN OkS(t, env2, IsNever(t))
+       ELSE LET r == TypeStmts(Tail(ss), [cx EXCEPT !.env = env2]) IN
+            IF IsRej(r) THEN r ELSE OkS(r.t, r.env, r.nev \/ IsNever(t))
 
 TypeProg(prog) == TypeStmts(prog, Cx(InitTEnv, NoneV, FALSE))
 Accepts(prog) == ~IsRej(TypeProg(prog))
